@@ -72,6 +72,11 @@ CHECKS.update({
    text="Bounded-exhaustive per function: TLC enumerates wholly known argument lists shaped for each function's domain and its edges (negative, fractional, out-of-range and infinite indices, sizes and steps; empty collections, duplicates, nulls, list/tuple and map/object forms) and compares every real result with the TLA+ reference (exact value and type, failure exactly where the reference rejects).",
    design_ref="DESIGN.md section 4 C13",
    note="flatten and setproduct, and argument lists needing type unification, are outside the reference (not judged). Trusted: harness projection, TLC."),
+ "C14": dict(
+   technique="TLA+ reference semantics (TextRef: exact rationals, sequences of abstract characters with the specification's own grapheme-cluster segmentation, a recursive TLA+ parser of the printf-like verb grammar, JSON text, CSV tables, RFC 3339 timestamps with a TLA+ Gregorian calendar); TLC-enumerated domain-shaped argument lists replayed into the real functions; TLC trace validation against the reference",
+   text="Bounded-exhaustive per function: TLC enumerates wholly known argument lists (numbers of either sign incl. fractions, infinities and numbers needing more than 53 bits; strings with multi-code-point grapheme clusters; format strings generated from the documented verb grammar with flags, width, precision, argument indices and up to three verbs; timestamps, date formats and durations; JSON-representable values; CSV tables) for 44 functions and compares every real result with the TLA+ reference: equal result where the reference defines one (ResultIsRef), an error only where the reference rejects (FailsOnlyOutsideDomain), and an error where the reference rejects (FailsOutsideDomain); decoding after encoding must give the JSON-implied value.",
+   design_ref="DESIGN.md section 4 C14 and section 11",
+   note="Restricted scope: results that are not exactly representable on the specification's rationals (log/pow in general, non-dyadic quotients), the float and non-decimal integer verbs (%e %f %g %b %o %x), regex/regexall/regexreplace, title beyond ASCII, quoted CSV fields, fractional seconds and sub-second durations are UNDEF in the reference and not judged; no Go-side oracle is substituted. Trusted: harness projection, TLC."),
  "C06": dict(
    technique="TLA+ well-formedness invariant (Relations!WellFormed plus hook-level NodeOK) evaluated by TLC on every result value recorded while replaying the TLC-generated inputs of the constructor, conversion, standard-library and set families (all families in the thorough tier)",
    text="Invariant over recorded executions: every value returned by a constructor, conversion, function, set operation (and, thorough, operation, unification, call protocol, traversal, decoder) during the bounded-exhaustive drivers of the other properties is projected twice - through every public accessor applicable to its type and through the build-tag hook cty.VerifInspect - and TLC evaluates WellFormed/NodeOK on it: payload shape and Go kind match the type, declared element/attribute types, arity, NFC strings and keys, sets free of marked or equal members with the declared element type in their rules, at most one marker layer, no optional-attribute annotations at any depth.",
